@@ -115,6 +115,12 @@ func expand(reg *registry.Registry, t *Transaction, accrual *syntax.Accrual) ([]
 			Wrapped: err,
 		}
 	}
+	if start.IsZero() {
+		return nil, syntax.Error{
+			Message: "accrual period starts at the zero date",
+			Range:   accrual.Start.Range,
+		}
+	}
 	if end.Before(start) {
 		return nil, syntax.Error{
 			Message: "accrual period ends before it starts",
